@@ -18,7 +18,7 @@ class C08(PipelineProp):
         return (
             "null maps: every input scaffold presented whole, forward, untagged (70% unpainted, 30% all painted), "
             "texel from 1 bp to total/3, per-scaffold texel count floor or ceil, any subset of sub-texel scaffolds "
-            "absent, last contig of every scaffold at least one texel long; inputs FASTA-derived or TPF-style with "
+            "absent; rounding of the map end within one texel with a last contig >= one texel (60%), or the double floor of texel count and coordinate with a last contig >= one texel + 2 bp (40%); inputs FASTA-derived or TPF-style with "
             "both strands and 1-bp contigs elsewhere. non-trivial = distinct completed case with >= 2 scaffolds"
         )
 
@@ -26,23 +26,53 @@ class C08(PipelineProp):
         inp = P.gen_input(rng, style=rng.choice(["tpf", "fasta"]))
         total = sum(P.sc_len(sc) for sc in inp["scaffolds"])
         bpt_str = P.choose_bpt(rng, total)
-        need = math.ceil(Fraction(bpt_str))
-        # make the last contig of every scaffold at least one texel long
+        bpt = Fraction(bpt_str)
+        need = math.ceil(bpt)
+        # regime a: Pretext's rounding stays within one texel (|E - L| < bpt) and the last contig is at least
+        #           one texel long; regime b: the double floor of texel count and coordinate (|E - L| < bpt + 1)
+        #           with a last contig of at least one texel + 2 bp.  Scaffolds shorter than one texel stay as
+        #           they are (absent from the map, or present as one overshooting texel).
+        regime_b = rng.random() < 0.4
         for sc in inp["scaffolds"]:
+            if P.sc_len(sc) < bpt and rng.random() < 0.8:
+                continue
             last = sc["rows"][-1]
             n = last[3] - last[2] + 1
-            if n < need:
-                last[3] += need - n
+            want = need + 2 if regime_b else need
+            if n < want:
+                last[3] += want - n
+        if regime_b and bpt != int(bpt):
+            # worst case of the double floor: a scaffold just short of a whole number of texels, whose last
+            # contig is between one and two texels long
+            err = 1 + int(bpt)
+            for sc in inp["scaffolds"]:
+                if rng.random() < 0.5 and len(sc["rows"]) >= 2 and sc["rows"][0][0] == "F":
+                    last = sc["rows"][-1]
+                    n = rng.randint(err + 1, 2 * err - 1)
+                    last[3] = last[2] + n - 1
+                    L0 = P.sc_len(sc)
+                    nt = int(Fraction(L0) / bpt) + 1
+                    target = math.ceil((nt + 1) * bpt) - 1
+                    first = sc["rows"][0]
+                    first[3] += target - L0
+                    if first[1] == sc["name"]:
+                        # FASTA-style coordinates: re-tile the scaffold
+                        pos = 0
+                        for r in sc["rows"]:
+                            m = P.row_len(r)
+                            if r[0] == "F":
+                                r[2], r[3] = pos + 1, pos + m
+                            pos += m
         painted = rng.random() < 0.3
         pieces = P.gen_pieces(rng, inp, bpt_str, cut_prob=0.0)
         scs = []
         for gi, pc in enumerate(pieces):
-            # Pretext's rounding of the scaffold end stays within one texel: |E - L| < bp per texel
             L = P.sc_len(inp["scaffolds"][pc["src"]])
-            pc["end"] = max(pc["end"], L - (need - 1))
+            if not regime_b:
+                pc["end"] = max(pc["end"], L - (need - 1))
             scs.append({"name": f"Scaffold_{gi + 1}",
                         "rows": [["F", pc["name"], pc["start"], pc["end"], 1, ["Painted"] if painted else []]]})
-        return {"gen": "null/" + ("painted" if painted else "unpainted"), "input": inp,
+        return {"gen": "null/" + ("painted" if painted else "unpainted") + ("/b" if regime_b else "/a"), "input": inp,
                 "pretext": {"bpt": bpt_str, "scaffolds": scs}, "prefix": "SUPER_", "painted": painted}
 
     def oracle(self, case, obs):
